@@ -13,7 +13,7 @@
 (*              definition said: pos, args (bracket = 1: args[1] and the    *)
 (*              last element are unique sentinel arguments that delimit     *)
 (*              the user's arguments inside a longer compiler command       *)
-(*              line), env (NAME/VALUE pairs), tmpl; pickles (unpickled     *)
+(*              line), envspec + ambient (below), tmpl; pickles (unpickled  *)
 (*              ExecutableSerialisation files of the build directory);      *)
 (*              cmd_ref / rsp_ref (has_ref = 1): the expansion computed by  *)
 (*              the independent reader harness/ninja_ref.py;                *)
@@ -23,6 +23,25 @@
 (* kind "test"  one test() of a real meson_test_setup.dat: obs = [argv,     *)
 (*              env] as unpickled; real: one record per execution by a real *)
 (*              `meson test --repeat N' (runs = N).                         *)
+(*              Both kinds carry envspec (what the build definition said    *)
+(*              about the environment, entries of ArgFidelity!ExpectedEnv,  *)
+(*              in every spelling) and ambient (the C03V* variables the     *)
+(*              harness put in the environment the command / `meson test'   *)
+(*              was started in); the names the entries talk about must have *)
+(*              the values E1-E3 prescribe, in the serialised form and in   *)
+(*              the process.                                                *)
+(* kind "envfn" the real convertor of the `env:' keyword / environment() /  *)
+(*              meson.add_devenv and the real env.set/append/prepend on     *)
+(*              envspec: obs0 / obs = the environment the resulting object  *)
+(*              yields over the empty / the ambient environment.            *)
+(* kind "devenv" what all meson.add_devenv() calls of a project said      *)
+(*              (envspec) and the record of ONE command run by the real     *)
+(*              `meson devenv' (args are command-line words of the harness, *)
+(*              not a position of the property).                            *)
+(* kind "ran"   a command meson itself runs: run_command() and             *)
+(*              add_postconf_script while it configures (via "configure"),  *)
+(*              add_install_script from `meson install' (via "install");    *)
+(*              args incl. the program, real as for tests.                  *)
 (* kind "rspreal" a response-file text and the arguments the real gcc driver    *)
 (*              read from it (validates RspSplit).                          *)
 (* kind "refused"  a project that only differs from an accepted one by the  *)
@@ -110,33 +129,49 @@ RealDiff(fins, real, k) ==
     IF k > Len(fins) THEN 0
     ELSE IF fins[k].argv # real[k].argv THEN k ELSE RealDiff(fins, real, k + 1)
 
+EnvSpecOk(c) == \A k \in 1..Len(c.envspec) : EntryWellFormed(c.envspec[k])
+
 JudgeFinals(c, fins, pos) ==
     LET via == fins[1].via
         mode == IF Len(fins) = 1 /\ via \in {"pickle", "rsp", "test"} THEN "noshell" ELSE "shell"
         flat == FlattenCmds(fins, 1)
         sl == Slice(c, flat)
         exp == Expected(c.args, pos, mode, c.tmpl)
+        \* what the build definition prescribes for the names it mentions: in the serialised form (nothing
+        \* ambient) and in the process (started in the ambient environment)
+        want0 == WantedEnv(c.envspec, <<>>)
+        wantA == WantedEnv(c.envspec, c.ambient)
         \* level 3: where only the environment (sh, env, gcc) stands between the text and the process, a
         \* disagreement with the recorded argv means the MODEL of the environment is wrong; where meson's own
         \* run-time code is in the path (meson --internal exe, the pickled wrapper, meson test) it is meson that
         \* did not hand over the argv it was given
         rt == \E k \in 1..Len(fins) : fins[k].via \in {"exewrap", "pickle", "test"}
         pre == IF rt THEN "Runtime" ELSE "ModelShell:"
-    IN IF c.has_real = 1 /\ Len(c.real) # Len(fins)
+        \* without meson's run-time code the process sees the ambient environment overridden by the NAME=VALUE
+        \* words of `env'
+        shown == c.ambient \o fins[1].env
+    IN IF ~EnvSpecOk(c) THEN V(c, "ModelEnvSpec", via, 0, 0, <<>>, <<>>)
+       ELSE IF c.has_real = 1 /\ Len(c.real) # Len(fins)
        THEN V(c, pre \o "ProcessCount", via, Len(c.real), 0, flat, <<>>)
        ELSE IF c.has_real = 1 /\ RealDiff(fins, c.real, 1) # 0
        THEN LET k == RealDiff(fins, c.real, 1)
                 d == FirstDiff(fins[k].argv, c.real[k].argv)
             IN V(c, pre \o "Argv", via, d, 0, <<At(fins[k].argv, d)>>, <<At(c.real[k].argv, d)>>)
-       ELSE IF c.has_real = 1 /\ \E k \in 1..Len(c.env) : EnvValue(fins[1].env, c.env[k][1]) # EnvValue(c.real[1].env, c.env[k][1])
-       THEN LET k == CHOOSE k \in 1..Len(c.env) : EnvValue(fins[1].env, c.env[k][1]) # EnvValue(c.real[1].env, c.env[k][1])
-            IN V(c, pre \o "Env", via, k, 0, <<EnvValue(fins[1].env, c.env[k][1])>>, <<EnvValue(c.real[1].env, c.env[k][1])>>)
+       ELSE IF c.has_real = 1 /\ ~rt /\ \E k \in 1..Len(want0) : EnvValue(shown, want0[k][1]) # EnvValue(c.real[1].env, want0[k][1])
+       THEN LET k == CHOOSE k \in 1..Len(want0) : EnvValue(shown, want0[k][1]) # EnvValue(c.real[1].env, want0[k][1])
+            IN V(c, "ModelShell:Env", via, k, 0, <<EnvValue(shown, want0[k][1])>>, <<EnvValue(c.real[1].env, want0[k][1])>>)
        ELSE IF sl.err # "" THEN V(c, sl.err, via, 0, 0, exp, flat)
        ELSE LET d == FirstDiff(exp, sl.t) IN
             IF d # 0 THEN V(c, IF Len(exp) = Len(sl.t) THEN "ArgvDiffers" ELSE "ArgCount", via, d, 0,
                             <<At(exp, d)>>, <<At(sl.t, d)>>)
-            ELSE LET m == EnvMissing(c.env, fins[1].env, 1) IN
-                 IF m # 0 THEN V(c, "EnvDiffers", via, m, 0, <<c.env[m][2]>>, <<EnvValue(fins[1].env, c.env[m][1])>>)
+            ELSE LET w == IF rt THEN want0 ELSE wantA
+                     h == IF rt THEN fins[1].env ELSE shown
+                     m == EnvMissing(w, h, 1)
+                 IN
+                 IF m # 0 THEN V(c, "EnvDiffers", via, m, 0, <<w[m][2]>>, <<EnvValue(h, w[m][1])>>)
+                 ELSE IF c.has_real = 1 /\ rt /\ EnvMissing(wantA, c.real[1].env, 1) # 0
+                 THEN LET r == EnvMissing(wantA, c.real[1].env, 1)
+                      IN V(c, "RuntimeEnv", via, r, 0, <<wantA[r][2]>>, <<EnvValue(c.real[1].env, wantA[r][1])>>)
                  ELSE OkV(c)
 
 JudgeEdge(c) ==
@@ -165,30 +200,90 @@ JudgeRspReal(c) ==
     ELSE OkV(c)
 
 \* A test is executed c.runs times by the real `meson test' (--repeat: one runner per iteration, all built from
-\* the same un-pickled TestSerialisation): EVERY execution must have received the serialised argv and environment.
+\* the same un-pickled TestSerialisation): EVERY execution must have received the serialised argv and the
+\* environment the build definition prescribes over the ambient one.
 RECURSIVE BadRun(_, _, _)
 BadRun(c, f, k) ==
     IF k > Len(c.real) THEN 0
-    ELSE IF c.real[k].argv # f.argv
-            \/ \E m \in 1..Len(c.env) : EnvValue(f.env, c.env[m][1]) # EnvValue(c.real[k].env, c.env[m][1])
-         THEN k ELSE BadRun(c, f, k + 1)
+    ELSE IF c.real[k].argv # f.argv THEN k ELSE BadRun(c, f, k + 1)
+RECURSIVE BadEnvRun(_, _, _)
+BadEnvRun(c, want, k) ==
+    IF k > Len(c.real) THEN 0
+    ELSE IF EnvMissing(want, c.real[k].env, 1) # 0 THEN k ELSE BadEnvRun(c, want, k + 1)
 JudgeTest(c) ==
     LET f == Fin("test", c.obs.argv, c.obs.env) IN
     IF c.has_real = 1 /\ Len(c.real) # c.runs
     THEN V(c, "RuntimeProcessCount", "test", Len(c.real), 0, <<>>, <<>>)
     ELSE IF c.has_real = 1 /\ BadRun(c, f, 1) # 0
-    THEN LET k == BadRun(c, f, 1) IN
-         IF c.real[k].argv # f.argv
-         THEN LET d == FirstDiff(f.argv, c.real[k].argv) IN
-              V(c, IF Len(f.argv) = Len(c.real[k].argv) THEN "RuntimeArgv" ELSE "RuntimeArgCount", "test", d, k,
-                <<At(f.argv, d)>>, <<At(c.real[k].argv, d)>>)
-         ELSE V(c, "RuntimeEnv", "test", 0, k, <<>>, <<>>)
-    ELSE JudgeFinals([c EXCEPT !.has_real = 0], <<f>>, "test")
+    THEN LET k == BadRun(c, f, 1)
+             d == FirstDiff(f.argv, c.real[k].argv)
+         IN V(c, IF Len(f.argv) = Len(c.real[k].argv) THEN "RuntimeArgv" ELSE "RuntimeArgCount", "test", d, k,
+              <<At(f.argv, d)>>, <<At(c.real[k].argv, d)>>)
+    ELSE LET v == JudgeFinals([c EXCEPT !.has_real = 0], <<f>>, "test") IN
+         IF v.clause # "ok" THEN v
+         ELSE LET want == WantedEnv(c.envspec, c.ambient) IN
+              IF c.has_real = 1 /\ BadEnvRun(c, want, 1) # 0
+              THEN LET k == BadEnvRun(c, want, 1)
+                       m == EnvMissing(want, c.real[k].env, 1)
+                   IN V(c, "RuntimeEnv", "test", m, k, <<want[m][2]>>, <<EnvValue(c.real[k].env, want[m][1])>>)
+              ELSE OkV(c)
+
+\* the developer environment: one command run by the real `meson devenv' must see what all meson.add_devenv()
+\* calls of the project say, in their order, over the ambient environment
+JudgeDevenv(c) ==
+    IF ~EnvSpecOk(c) THEN V(c, "ModelEnvSpec", "devenv", 0, 0, <<>>, <<>>)
+    ELSE IF c.has_real = 0 THEN OkV(c)
+    ELSE IF Len(c.real) # 1 THEN V(c, "RuntimeProcessCount", "devenv", Len(c.real), 0, <<>>, <<>>)
+    ELSE IF c.real[1].argv # c.args
+    THEN LET d == FirstDiff(c.args, c.real[1].argv) IN
+         V(c, "ModelDevenv:Argv", "devenv", d, 0, <<At(c.args, d)>>, <<At(c.real[1].argv, d)>>)
+    ELSE LET want == WantedEnv(c.envspec, c.ambient)
+             m == EnvMissing(want, c.real[1].env, 1)
+         IN IF m # 0 THEN V(c, "RuntimeEnv", "devenv", m, 0, <<want[m][2]>>, <<EnvValue(c.real[1].env, want[m][1])>>)
+            ELSE OkV(c)
+
+\* a command meson itself runs - run_command() and postconf scripts while it configures, install scripts from
+\* `meson install': no shell, no template, no rewrite; every execution (c.runs of them) gets the argv the build
+\* definition gave and the environment it prescribes over the ambient one
+RECURSIVE BadRanRun(_, _, _, _)
+BadRanRun(c, exp, want, k) ==
+    IF k > Len(c.real) THEN 0
+    ELSE IF c.real[k].argv # exp \/ EnvMissing(want, c.real[k].env, 1) # 0 THEN k ELSE BadRanRun(c, exp, want, k + 1)
+JudgeRan(c) ==
+    LET exp == Expected(c.args, c.pos, "noshell", <<>>)
+        want == WantedEnv(c.envspec, c.ambient)
+    IN IF ~EnvSpecOk(c) THEN V(c, "ModelEnvSpec", c.via, 0, 0, <<>>, <<>>)
+       ELSE IF c.has_real = 0 THEN OkV(c)
+       ELSE IF Len(c.real) # c.runs THEN V(c, "RuntimeProcessCount", c.via, Len(c.real), 0, <<>>, <<>>)
+       ELSE LET k == BadRanRun(c, exp, want, 1) IN
+            IF k = 0 THEN OkV(c)
+            ELSE IF c.real[k].argv # exp
+            THEN LET d == FirstDiff(exp, c.real[k].argv) IN
+                 V(c, IF Len(exp) = Len(c.real[k].argv) THEN "RuntimeArgv" ELSE "RuntimeArgCount", c.via, d, k,
+                   <<At(exp, d)>>, <<At(c.real[k].argv, d)>>)
+            ELSE LET m == EnvMissing(want, c.real[k].env, 1) IN
+                 V(c, "RuntimeEnv", c.via, m, k, <<want[m][2]>>, <<EnvValue(c.real[k].env, want[m][1])>>)
+
+\* the real convertor / environment object on one specification, without a build directory
+JudgeEnvFn(c) ==
+    IF ~EnvSpecOk(c) THEN V(c, "ModelEnvSpec", c.f, 0, 0, <<>>, <<>>)
+    ELSE IF c.r = 1 THEN V(c, "EnvRefused", c.f, 0, 0, <<>>, <<>>)
+    ELSE LET want0 == WantedEnv(c.envspec, <<>>)
+             wantA == WantedEnv(c.envspec, c.ambient)
+             m0 == EnvMissing(want0, c.obs0, 1)
+             mA == EnvMissing(wantA, c.obs, 1)
+         IN IF m0 # 0 THEN V(c, "EnvDiffers", c.f, m0, 0, <<want0[m0][2]>>, <<EnvValue(c.obs0, want0[m0][1])>>)
+            ELSE IF mA # 0 THEN V(c, "EnvDiffers", c.f, mA, 1, <<wantA[mA][2]>>, <<EnvValue(c.obs, wantA[mA][1])>>)
+            ELSE IF Len(c.obs0) # Len(want0) THEN V(c, "EnvNames", c.f, Len(c.obs0), 0, <<>>, <<>>)
+            ELSE OkV(c)
 
 Judge(c) ==
     IF c.kind = "fn" THEN JudgeOuts(c, 1)
     ELSE IF c.kind = "edge" THEN JudgeEdge(c)
     ELSE IF c.kind = "test" THEN JudgeTest(c)
+    ELSE IF c.kind = "envfn" THEN JudgeEnvFn(c)
+    ELSE IF c.kind = "devenv" THEN JudgeDevenv(c)
+    ELSE IF c.kind = "ran" THEN JudgeRan(c)
     ELSE IF c.kind = "rspreal" THEN JudgeRspReal(c)
     ELSE IF c.kind = "refused" THEN V(c, "ConfigureRefused", "", 0, 0, <<>>, <<>>)
     ELSE V(c, "UnknownKind", "", 0, 0, <<>>, <<>>)
